@@ -4,6 +4,8 @@ use crate::datetime::{check_date_time_inputs, unix_time, DateTime, UtcDateTime};
 use crate::error::TzError;
 use crate::timezone::{TimeZoneRef, TransitionRule};
 
+use core::cmp::Ordering;
+
 #[cfg(feature = "alloc")]
 use alloc::vec::Vec;
 
@@ -298,7 +300,7 @@ pub(super) fn find_date_time(
             ];
 
             // Sort transitions
-            let sorted = additional_transition_times.windows(2).all(|x| x[0] <= x[1]);
+            let sorted = alternate_time.cmp_dst_start_end(year, dst_start_time_in_utc, dst_end_time_in_utc) != Ordering::Greater;
 
             if !sorted {
                 for chunk in additional_transition_times.chunks_exact_mut(2) {
